@@ -147,6 +147,51 @@ class _PluginSource:
         return self.prop.run_impl(case)
 
 
+class _SeededRandomSource:
+    """programs that are reproducible because they seed the `random` module themselves: real generators with random
+    inter-arrival times and sizes -> (RandomDemux ->) lossy Wires -> REDPort -> Port -> PacketSink, nothing scripted.
+    Every source of randomness the elements use must be the seeded module-level generator (or be absent)."""
+
+    def gen_case(self, rng, tier, _pid):
+        return {"kind": "seeded", "seed": rng.randint(0, 10 ** 6), "nflows": rng.randint(1, 3),
+                "loss": rng.choice([0.1, 0.3, 0.5]), "split": rng.random() < 0.5, "until": rng.choice([40, 80, 150])}
+
+    def run_impl(self, case):
+        import random
+        from onl.sim import Environment
+        from onl.packet import DistPacketGenerator, PacketSink
+        from onl.netdev.wire import Wire
+        from onl.netdev.port import Port
+        from onl.netdev.red_port import REDPort
+        from onl.netdev.demux import RandomDemux
+        keep = random.getstate()
+        try:
+            random.seed(case["seed"])
+            env = Environment()
+            sink = PacketSink(env, rec_flow_ids=True)
+            port = Port(env, 8000.0, None, False, "p")
+            port.out = sink
+            red = REDPort(env, 16000.0, 8, 2, 0.5, "r", 12)
+            red.out = port
+            wires = [Wire(env, lambda: random.uniform(0.1, 0.5), loss_rate=case["loss"], wire_id=i) for i in range(2)]
+            for w in wires:
+                w.out = red
+            entry = RandomDemux(wires, [0.5, 0.5]) if case["split"] else wires[0]
+            gens = []
+            for f in range(case["nflows"]):
+                g = DistPacketGenerator(env, "g%d" % f, lambda: random.expovariate(2.0), lambda: random.randint(40, 1500),
+                                        flow_id=f, finish=case["until"] * 0.6)
+                g.out = entry
+                gens.append(g)
+            env.run(until=case["until"])
+            return {"arrivals": {str(k): [repr(x) for x in v] for k, v in sorted(sink.arrivals.items())},
+                    "waits": {str(k): [repr(x) for x in v] for k, v in sorted(sink.waits.items())},
+                    "sent": [g.packets_send for g in gens], "wire_rec": [w.packets_rec for w in wires],
+                    "red": [red.packets_received, red.packets_dropped], "now": repr(env.now)}
+        finally:
+            random.setstate(keep)
+
+
 def net_parts():
     """the element parts that can be imported (props/part_<name>.py, protocol of vlib/composite.py)"""
     import importlib
@@ -157,6 +202,7 @@ def net_parts():
                 _NET["parts"][n] = importlib.import_module("props.part_" + n).PART
             except BaseException as e:
                 _NET["skipped"].append(f"{n}: {type(e).__name__}: {str(e)[:80]}")
+        _NET["parts"]["seeded"] = _SeededRandomSource()
         for n, kinds in NET_PLUGINS.items():
             try:
                 _NET["parts"][n] = _PluginSource(importlib.import_module("props." + n).PROP, kinds)
@@ -984,7 +1030,7 @@ class C03(Prop):
         """network scenarios (the element parts' case streams): in-process execution after truncated executions of the same
         part == execution in a fresh interpreter, under several PYTHONHASHSEED values"""
         parts = net_parts()
-        n_total = 66 if tier == "quick" else 700
+        n_total = 72 if tier == "quick" else 760
         seeds = [1, 4242] if tier == "quick" else [0, 1, 7, 4242]
         per = max(1, n_total // max(1, len(parts)))
         items = []                                            # (part, case, polluters, ks)
